@@ -569,6 +569,8 @@ class Executor:
             if isinstance(c, DictContent):
                 return z3.Select(c.keys, self.pack(x, c.key_sort))
             if isinstance(c, CDictContent):
+                if getattr(c, 'unknown', False):
+                    raise OutOfSubset('lookup in a dict of unknown content at line %d' % node.lineno)
                 if not isinstance(x, (int, str, bool, tuple)) or isinstance(x, VTuple) and not all(isinstance(e, (int, str)) for e in x):
                     raise OutOfSubset('symbolic key in a concrete-key dict at line %d' % node.lineno)
                 return (tuple(x) if isinstance(x, VTuple) else x) in c.items
@@ -687,8 +689,8 @@ class Executor:
                 return z3.Select(c.vals, k)
             if isinstance(c, CDictContent):
                 key = tuple(idx) if isinstance(idx, VTuple) else idx
-                if not isinstance(key, (int, str, bool, tuple)):
-                    raise OutOfSubset('symbolic key in a concrete-key dict at line %d' % node.lineno)
+                if not isinstance(key, (int, str, bool, tuple)) or getattr(c, 'unknown', False):
+                    raise OutOfSubset('symbolic key / unknown content of a concrete-key dict at line %d' % node.lineno)
                 self.oblige(st, 'safe:key', node, key in c.items, 'key present (KeyError otherwise)')
                 return c.items.get(key, VOpaque('missing'))
         raise OutOfSubset('subscript of %r at line %d' % (base, node.lineno))
@@ -1849,6 +1851,10 @@ class Executor:
         elif isinstance(c, MapListContent):
             c.has = z3.Const(fresh_name(ref.label + '.has'), c.has.sort())
             c.val = z3.Const(fresh_name(ref.label + '.val'), c.val.sort())
+        elif isinstance(c, CDictContent):
+            # a concrete-key dict that may be written by a loop body / callee: its content becomes unknown (any later lookup is out of subset)
+            c.items = {}
+            c.unknown = True
         else:
             raise OutOfSubset('cannot havoc content %r' % c)
 
